@@ -110,6 +110,11 @@ pub fn main(args: &[String]) {
                             if moved != vec![first] { viol.push(v("edit-export-retarget-wrong", "C18", format!("{}: replace_exported_func({}) retargeted exports {:?}, expected exactly [{}]", name, fidx, moved, first), wasm)); }
                             if a.exports.iter().map(|e| (&e.0, e.1)).collect::<Vec<_>>() != b.exports.iter().map(|e| (&e.0, e.1)).collect::<Vec<_>>() { viol.push(v("edit-exports-changed", "C18", format!("{}: export names/kinds changed", name), wasm)); }
                             if a.funcs.len() + 1 != b.funcs.len() || a.imports != b.imports.iter().cloned().map(|mut i| { if let AImportKind::Func(_) = i.2 { i } else { i } }).collect::<Vec<_>>() && a.imports.len() != b.imports.len() { viol.push(v("edit-function-count", "C18", format!("{}: expected exactly one more function and the same imports", name), wasm)); }
+                            // element segments: untouched, except for ONE new declared segment listing exactly the functions that the retargeted export leaves undeclared for `ref.func`
+                            if b.elems.len() == a.elems.len() + 1 { let ok = match b.elems.last() { Some(crate::amod::AElem { kind: crate::amod::AElemKind::Declared, items: crate::amod::AElemItems::Funcs(fs) }) => { let mut b2 = b.clone(); b2.elems.pop(); let mut o = crate::oracles::undeclared_reffuncs_all(&b2); o.sort(); let mut fs = fs.clone(); fs.sort(); !fs.is_empty() && fs == o }, _ => false };
+                                let norm = |k: &crate::amod::AElemKind| match k { crate::amod::AElemKind::Active { table, offset } => crate::amod::AElemKind::Active { table: if *table == Some(0) { None } else { *table }, offset: offset.clone() }, other => other.clone() };
+                                if !ok || b.elems[..a.elems.len()].iter().map(|e| norm(&e.kind)).collect::<Vec<_>>() != a.elems.iter().map(|e| norm(&e.kind)).collect::<Vec<_>>() { viol.push(v("edit-declares-wrong-functions", "C18", format!("{}: the element segment added by replace_exported_func({}) is not a declared segment listing exactly the functions that would otherwise be undeclared", name, fidx), wasm)); } }
+                            else if b.elems.len() != a.elems.len() { viol.push(v("edit-elements-changed", "C18", format!("{}: replace_exported_func({}) changed the number of element segments from {} to {}", name, fidx, a.elems.len(), b.elems.len()), wasm)); }
                             if refs_to(&b, new_ix).0 + refs_to(&b, new_ix).1 != 0 { viol.push(v("edit-internal-callers-retargeted", "C18", format!("{}: internal references point at the replacement of exported function {}", name, fidx), wasm)); }
                         }
                     }
